@@ -22,7 +22,9 @@ RULE = (
     "compiled into a real COLR table and decompiled must place a square's corners within that bound, or the build must raise when a "
     "field is out of range; (3) _decompose_uniform_transform: uniform part is a uniform scale+translate and uniform o residual == A; "
     "(4) gradient.apply_transform(A) compiled into a font: colour at A.q equals the original's colour at q (interval oracle), "
-    "out-of-range geometry raises. Non-trivial: within 1e-6 relative of a branch boundary or beyond a range limit, or a gradient with "
+    "out-of-range geometry raises; (5) ~1 % of the cases are whole COLRv1 builds in which a gradient-filled shape is a 3-130x smaller copy of "
+    "an earlier shape placed so that mapping the gradient by the inverse reuse transform leaves int16 (the write_font.py anchor: the "
+    "encoder must pick the wider encoding, a wrapping transform) - judged by C01's display-tree oracle. Non-trivial: within 1e-6 relative of a branch boundary or beyond a range limit, or a gradient with "
     "a non-similarity transform; distinct by SHA-1."
 )
 ASSUMPTIONS = ["fontTools compiles/decompiles COLR paints faithfully", "probe box is +-2048 units"]
@@ -143,7 +145,11 @@ def grad_case(draw):
 def cases(tier):
     aff = affine().map(lambda ka: {"t": "affine", "ak": ka[0], "A": ka[1]})
     dec = affine(["mixed", "shear", "rot", "scale", "scale_t_frac", "sing", "frac_t", "huge", "scale_lim"]).map(lambda ka: {"t": "decompose", "ak": ka[0], "A": ka[1]})
-    return st.one_of(aff, aff, aff, aff, dec, grad_case())
+    from . import c01
+
+    far_build = c01.far_reuse_case(["glyf_colr_1"], tier).map(lambda c: {"t": "build", "case": c})
+    far = st.integers(0, 15).flatmap(lambda i: far_build if i == 0 else aff)
+    return st.one_of(aff, aff, aff, far, dec, grad_case())
 
 
 # ------------------------------------------------------------------------------------------ helpers
@@ -438,6 +444,13 @@ def judge(case):
         judge_affine(case, v)
     elif case["t"] == "decompose":
         judge_decompose(case, v)
+    elif case["t"] == "build":
+        from . import c01
+
+        v = c01.judge(case["case"])
+        v.cls("build:reuse-overflow")
+        # the EXTEND-DOMAIN class is C01's open finding K1, not a statement about transforms
+        v.failures = [f for f in v.failures if f[0] != "EXTEND-DOMAIN"]
     else:
         judge_grad(case, v)
     return v
